@@ -134,6 +134,18 @@ CLAIMED = {
        "several parsers, verify_fileobj's ValueError).",
   technique="Lean 4 proof (compositional exception-class and no-swallow judgements over a FileM effect model) + exhaustive fault injection on the real code",
   ref="DESIGN.md §5 C06"),
+ "C17": dict(
+  text="Lean 4 theorems (Props/C17.lean) over the model of loadfile/_openfile's argument logic: owner_only_closes - mutagen closes exactly the "
+       "handles it opened itself, never a caller-supplied object (positional, fileobj=, or inside a FileThing); caller_object_wins; "
+       "keyword_equals_positional; path_forms_agree (str/bytes path, filename=, os.PathLike resolve to the same plan); misuse_errors "
+       "(TypeError / ValueError); only_documented_calls - the effect language of every modelled program has exactly the six documented calls. "
+       "Partial: that the format code itself gives identical results for every kind of file thing is not a theorem (the format code is not "
+       "modelled); it is checked on the real objects for 8 ways of passing a file x all formats x load/save/delete/module delete (tags, bytes, "
+       "exception class, not closed, minimal-interface object).",
+  note="Trusted: Lean kernel; standard axioms; the _openfile model is compared with the real generator over all 500+ argument combinations "
+       "(fake open(), fake objects); OS file semantics vs BytesIO are not modelled.",
+  technique="Lean 4 proof (decision logic of the file-argument resolution) + cross-kind differential on the real code",
+  ref="DESIGN.md §5 C17"),
 }
 
 PENDING_REASON = "not claimed yet in this revision: the Lean model and theorems for this property are still being built (see DESIGN.md §7 build order); it is not 'not applicable' in principle"
